@@ -2,7 +2,7 @@
 
 Contract: row order preserved; groupby keys in sorted order; median of an even group = mean of the middle two; sort_values is
 stable. Values are never inspected except through Python operators (==, <, +, ...), so they may be symx values (SReal/SInt) or
-CrossHair symbolic strings. Validated differentially against the real pandas on concrete frames (vlib/selfcheck.py).
+CrossHair symbolic strings. Validated differentially against the real pandas on concrete frames at the start of every check that uses it (vlib/selfcheck.py).
 """
 from __future__ import annotations
 
